@@ -9,3 +9,114 @@ package keeper
 //@   ensures err == nil                                                                          // C05: never_errors
 //@   ensures ret0 == isFinal(now, output.L1BlockTime, bridgeConfig.FinalizationPeriod)          // C05: window
 //@   assigns \nothing
+
+//@ func (Keeper) IsFinalized
+//@   let b := bridgeId
+//@   ensures err == nil ==> OutputProposals[(b, outputIndex)] != None && BridgeConfigs[b] != None                                     // C05: output_and_bridge_exist
+//@   ensures err == nil ==> ret0 == isFinal(now, val(OutputProposals[(b, outputIndex)]).L1BlockTime, val(BridgeConfigs[b]).FinalizationPeriod)   // C05: window
+//@   assigns \nothing
+
+//@ func (Keeper) DeleteOutputProposal
+//@   let b := bridgeId
+//@   let k := (bridgeId, outputIndex)
+//@   ensures err == nil ==> old(OutputProposals)[k] != None && BridgeConfigs[b] != None                                                  // C05: exists
+//@   ensures err == nil ==> !isFinal(now, val(old(OutputProposals)[k]).L1BlockTime, val(BridgeConfigs[b]).FinalizationPeriod)           // C05: final_never_deleted
+//@   ensures err == nil ==> OutputProposals == old(OutputProposals)[k := None]                                                          // C11: removes_exactly_one
+//@   assigns OutputProposals[k]
+
+//@ func (Keeper) GetLastFinalizedOutput
+//@   let b := bridgeId
+//@   let cfg := val(BridgeConfigs[b])
+//@   ensures err == nil ==> BridgeConfigs[b] != None
+//@   ensures err == nil && outputIndex != 0 ==> OutputProposals[(b, outputIndex)] == Some(outputProposal) && isFinal(now, outputProposal.L1BlockTime, cfg.FinalizationPeriod)   // C05: last_finalized_is_final
+//@   ensures err == nil ==> forall j uint64 :: j > outputIndex && OutputProposals[(b, j)] != None ==> !isFinal(now, val(OutputProposals[(b, j)]).L1BlockTime, cfg.FinalizationPeriod)   // C05: last_finalized_is_highest
+//@   walk 0 invariant outputIndex == 0
+//@   walk 0 invariant forall t int :: 0 <= t && t < $i ==> !isFinal(now, val(OutputProposals[$key(t)]).L1BlockTime, cfg.FinalizationPeriod)
+//@   assigns \nothing
+
+//@ func (Keeper) IncreaseNextL1Sequence
+//@   requires nextOr1(NextL1Sequences[bridgeId]) < 18446744073709551615                                 // A-CTR
+//@   ensures err == nil && ret0 == nextOr1(old(NextL1Sequences)[bridgeId])                             // C10: returns_next
+//@   ensures NextL1Sequences == old(NextL1Sequences)[bridgeId := Some(ret0 + 1)]                        // C10: bumps_by_one
+//@   assigns NextL1Sequences[bridgeId]
+
+//@ func (Keeper) IncreaseNextOutputIndex
+//@   requires nextOr1(NextOutputIndexes[bridgeId]) < 18446744073709551615                               // A-CTR
+//@   ensures err == nil && ret0 == nextOr1(old(NextOutputIndexes)[bridgeId])                           // C11: returns_next
+//@   ensures NextOutputIndexes == old(NextOutputIndexes)[bridgeId := Some(ret0 + 1)]                    // C11: bumps_by_one
+//@   assigns NextOutputIndexes[bridgeId]
+
+//@ func (Keeper) IncreaseNextBridgeId
+//@   requires NextBridgeId < 18446744073709551614                                                      // A-CTR
+//@   ensures err == nil && ret0 == seqOr1(old(NextBridgeId))                                           // C10: returns_next
+//@   ensures NextBridgeId == ret0 + 1                                                                  // C10: bumps_by_one
+//@   assigns NextBridgeId
+
+//@ func (MsgServer) InitiateTokenDeposit
+//@   let b := req.BridgeId
+//@   let d := req.Amount.Denom
+//@   let a := req.Amount.Amount
+//@   let sender := addrBytes(1, req.Sender)
+//@   let l2d := l2denom(b, d)
+//@   requires nextOr1(NextL1Sequences[b]) < 18446744073709551615                                  // A-CTR
+//@   ensures err == nil ==> BridgeConfigs[b] != None                                              // C10: bridge_exists
+//@   ensures err == nil ==> ret0.Sequence == nextOr1(old(NextL1Sequences)[b])                     // C10: sequence
+//@   ensures err == nil ==> NextL1Sequences == old(NextL1Sequences)[b := Some(ret0.Sequence + 1)] // C10: sequence_bump
+//@   ensures err == nil ==> bank.bal == transfer(old(bank.bal), sender, bridgeAddr(b), d, a)      // C01: escrow
+//@   ensures err == nil ==> a >= 0 && validDenom(d) && addrOK(1, req.Sender) && len(req.To) > 0 && b != 0      // C10: validated
+//@   ensures err == nil ==> TokenPairs == old(TokenPairs)[(b, l2d) := (old(TokenPairs)[(b, l2d)] != None ? old(TokenPairs)[(b, l2d)] : Some(d))]   // C10: token_pair_write_once
+//@   emits err == nil ==> ev("initiate_token_deposit", "bridge_id", fmtU64(b), "l1_sequence", fmtU64(ret0.Sequence),
+//@        "from", req.Sender, "to", req.To, "l1_denom", d, "l2_denom", l2d, "amount", intStr(a), "data", hexenc(req.Data))   // C10: event
+//@   assigns NextL1Sequences[b], TokenPairs[(b, l2d)], bank.bal[(sender, d)], bank.bal[(bridgeAddr(b), d)], events
+
+//@ func (MsgServer) ProposeOutput
+//@   let b := req.BridgeId
+//@   let n := nextOr1(NextOutputIndexes[b])
+//@   requires n < 18446744073709551615                                                            // A-CTR
+//@   requires n >= 1                                                                              // INV_OUT: stored counters are >= 1
+//@   ensures err == nil ==> old(BridgeConfigs)[b] != None && req.Proposer == val(old(BridgeConfigs)[b]).Proposer     // C12: proposer_only
+//@   ensures err == nil ==> req.OutputIndex == n                                                  // C11: next_index_only
+//@   ensures err == nil && n != 1 ==> old(OutputProposals)[(b, n - 1)] != None && req.L2BlockNumber > val(old(OutputProposals)[(b, n - 1)]).L2BlockNumber   // C11: l2_block_increases
+//@   ensures err == nil ==> NextOutputIndexes == old(NextOutputIndexes)[b := Some(n + 1)]         // C11: index_bump
+//@   ensures err == nil ==> OutputProposals == old(OutputProposals)[(b, n) := OutputProposals[(b, n)]] && OutputProposals[(b, n)] != None   // C11: stores_at_next
+//@   ensures err == nil ==> val(OutputProposals[(b, n)]).L1BlockTime == now && val(OutputProposals[(b, n)]).L1BlockNumber == height % 18446744073709551616   // C05,C11: records_now
+//@   ensures err == nil ==> val(OutputProposals[(b, n)]).L2BlockNumber == req.L2BlockNumber && val(OutputProposals[(b, n)]).OutputRoot == req.OutputRoot && len(req.OutputRoot) == 32   // C11: records_request
+//@   emits err == nil ==> ev("propose_output", "proposer", req.Proposer, "bridge_id", fmtU64(b), "output_index", fmtU64(n),
+//@        "l2_block_number", fmtU64(req.L2BlockNumber), "output_root", hexenc(req.OutputRoot))                                  // C11: event
+//@   assigns OutputProposals[(b, n)], NextOutputIndexes[b], events
+
+//@ func (MsgServer) DeleteOutput
+//@   let b := req.BridgeId
+//@   let n := nextOr1(NextOutputIndexes[b])
+//@   let cfg := val(BridgeConfigs[b])
+//@   ensures err == nil ==> BridgeConfigs[b] != None && (req.Challenger == ms.authority || req.Challenger == cfg.Proposer || req.Challenger == cfg.Challenger)   // C12: gov_proposer_or_challenger
+//@   ensures err == nil ==> 1 <= req.OutputIndex && req.OutputIndex < n                           // C11: index_in_range
+//@   ensures err == nil ==> NextOutputIndexes == old(NextOutputIndexes)[b := Some(req.OutputIndex)]     // C11: rollback_to_deleted
+//@   ensures err == nil ==> forall j uint64 :: req.OutputIndex <= j && j < n ==> OutputProposals[(b, j)] == None && old(OutputProposals)[(b, j)] != None
+//@        && !isFinal(now, val(old(OutputProposals)[(b, j)]).L1BlockTime, cfg.FinalizationPeriod)      // C05,C11: deletes_nonfinal_suffix
+//@   ensures err == nil ==> forall k `(Pair Int Int)` :: !(fst(k) == b && req.OutputIndex <= snd(k) && snd(k) < n) ==> OutputProposals[k] == old(OutputProposals)[k]   // C11: only_suffix
+//@   loop 0 invariant outputIndex <= i && i <= nextOutputIndex
+//@   loop 0 invariant forall k `(Pair Int Int)` :: OutputProposals[k] == ((fst(k) == b && outputIndex <= snd(k) && snd(k) < i) ? None : old(OutputProposals)[k])
+//@   loop 0 invariant forall j uint64 :: outputIndex <= j && j < i ==> old(OutputProposals)[(b, j)] != None && !isFinal(now, val(old(OutputProposals)[(b, j)]).L1BlockTime, cfg.FinalizationPeriod)
+//@   emits err == nil ==> ev("delete_output", "challenger", req.Challenger, "bridge_id", fmtU64(b), "output_index", fmtU64(req.OutputIndex))
+//@   assigns OutputProposals[(b, *)], NextOutputIndexes[b], events
+
+//@ func (MsgServer) FinalizeTokenWithdrawal
+//@   let b := req.BridgeId
+//@   let d := req.Amount.Denom
+//@   let a := req.Amount.Amount
+//@   let h := leaf(b, req.Sequence, req.From, req.To, d, a)
+//@   let to := addrBytes(1, req.To)
+//@   let o := val(OutputProposals[(b, req.OutputIndex)])
+//@   let cfg := val(BridgeConfigs[b])
+//@   ensures err == nil ==> old(ProvenWithdrawals)[(b, h)] == None                                        // C02: not_claimed_before
+//@   ensures err == nil ==> ProvenWithdrawals == old(ProvenWithdrawals)[(b, h) := Some(true)]             // C02: claim_recorded_under_leaf
+//@   ensures err == nil ==> bank.bal == transfer(old(bank.bal), bridgeAddr(b), to, d, a)                  // C01: payout_from_own_escrow
+//@   ensures err == nil ==> OutputProposals[(b, req.OutputIndex)] != None && BridgeConfigs[b] != None && isFinal(now, o.L1BlockTime, cfg.FinalizationPeriod)   // C05: finalized_only
+//@   ensures err == nil ==> len(req.Version) == 1 && len(req.StorageRoot) == 32 && len(req.LastBlockHash) == 32
+//@        && o.OutputRoot == outputRoot(bat(req.Version, 0), req.StorageRoot, req.LastBlockHash)          // C03: output_root_matches
+//@   ensures err == nil ==> foldNode(h, arr(req.WithdrawalProofs), len(req.WithdrawalProofs)) == req.StorageRoot   // C03: proof_folds_to_storage_root
+//@   ensures err == nil ==> a > 0 && a < 18446744073709551616 && addrOK(1, req.To) && len(req.From) > 0 && validDenom(d)   // C04: validated
+//@   emits err == nil ==> ev("finalize_token_withdrawal", "bridge_id", fmtU64(b), "output_index", fmtU64(req.OutputIndex), "l2_sequence", fmtU64(req.Sequence),
+//@        "from", req.From, "to", req.To, "l1_denom", d, "l2_denom", l2denom(b, d), "amount", intStr(a))                   // C02: event
+//@   assigns ProvenWithdrawals[(b, h)], bank.bal[(bridgeAddr(b), d)], bank.bal[(to, d)], events
